@@ -132,6 +132,17 @@ def bookkeeping(run, rng):
                                   f"zmeqb (z_ptranspose n {natl(S)} {mname}) {lit(ints(out[bi])[0])}", None, True))
             except Exception as e:  # noqa: BLE001
                 run.find("partial_transpose:batch:raises", f"{type(e).__name__}: {e}", {"n": n})
+            # batch of STATE VECTORS (shape (N, 1, 2^n)): each element is the partial transpose of |psi><psi| -- with complex
+            # amplitudes, so that building conj(rho) instead of rho is visible; every single-qubit partition
+            psi_c = np.conj(psi)
+            for S in ([q] for q in range(n)):
+                try:
+                    out = qi.partial_transpose(np.array([psi, psi_c])[:, None, :].copy(), S)
+                    for bi, vname in ((0, "psi"), (1, "(z_vconj psi)")):
+                        items.append(("partial_transpose:batch_sv", {"n": n, "partition": S, "batch_index": bi, "state": ints(psi)[0]},
+                                      f"zmeqb (z_ptranspose n {natl(S)} (z_outer {vname} (z_vconj {vname}))) {lit(ints(out[bi])[0])}", None, True))
+                except Exception as e:  # noqa: BLE001
+                    run.find("partial_transpose:batch_sv:raises", f"{type(e).__name__}: {e}", {"n": n, "partition": S})
         # matricisation inside schmidt_decomposition, observed by wrapping the SVD call at run time
         captured = []
         orig = lo.singular_value_decomposition
